@@ -1,0 +1,6 @@
+//go:build !verif
+
+package rpc
+
+// verifPoint is a no-op without the `verif` build tag.
+func verifPoint(who any, id string) {}
